@@ -24,7 +24,8 @@ STEPS = ('open-polling', 'open-websocket', 'poll', 'post-message', 'post-close',
          'upgrade-garbage', 'upgrade-close-after-probe', 'ws-message', 'ws-binary', 'ws-close-packet', 'ws-type8', 'ws-drop',
          'advance-interval', 'advance-past-bound', 'bad-method', 'bad-transport', 'unknown-sid', 'bad-version', 'poll-second-session',
          'post-binary', 'post-two-then-close', 'jsonp-poll', 'ws-pong', 'post-nonascii-over-bytes', 'post-ascii-at-limit',
-         'post-ascii-over-limit', 'ws-frame-over-limit', 'ws-nonascii-frame')
+         'post-ascii-over-limit', 'ws-frame-over-limit', 'ws-nonascii-frame', 'post-close-then-message', 'post-form-encoded',
+         'send-burst-over-limit')
 
 
 class _Side:
@@ -116,12 +117,18 @@ def _apply(side, step, n):
     elif step.startswith('post-'):
         body = {'post-message': '4m%d' % n, 'post-close': '1', 'post-pong': '3', 'post-upgrade-packet': '5', 'post-type7': '7',
                 'post-garbage': 'zz', 'post-17-packets': '\x1e'.join(['4x'] * 17), 'post-binary': 'bAAEC',
-                'post-two-then-close': '4a\x1e4b\x1e1', 'post-nonascii-over-bytes': '4' + '\u0436' * 35,
+                'post-two-then-close': '4a\x1e4b\x1e1', 'post-close-then-message': '4a\x1e1\x1e4late',
+                'post-form-encoded': 'd=4hello+world%1E4%7B%22a%22%3A+%22b+c%22%7D%1E4x%2By', 'post-nonascii-over-bytes': '4' + '\u0436' * 35,
                 'post-ascii-at-limit': '4' + 'x' * (LIMIT - 1), 'post-ascii-over-limit': '4' + 'x' * LIMIT}[step]
         req(step, sut.post(s0, body))
     elif step.startswith('send-'):
-        data = {'send-text': 't%d' % n, 'send-json': {'n': n}, 'send-binary': bytes([n, 255])}[step]
-        sut.app_send(s0, data)
+        if step == 'send-burst-over-limit':
+            # a backlog larger than max_http_buffer_size between two reads, with short messages queued behind the long ones
+            for j, data in enumerate(['L' * 25 + str(n), 'M' * 25 + str(n), 'c%d' % n, 'd%d' % n, 'e%d' % n]):
+                sut.app_send(s0, data)
+        else:
+            data = {'send-text': 't%d' % n, 'send-json': {'n': n}, 'send-binary': bytes([n, 255])}[step]
+            sut.app_send(s0, data)
     elif step == 'disconnect-sid':
         req(step, sut.app_disconnect(s0))
     elif step.startswith('upgrade-'):
